@@ -14,7 +14,6 @@ use serde::Deserialize;
 use serde::Serialize;
 use time::format_description::well_known::Rfc3339;
 use time::OffsetDateTime;
-use time::UtcOffset;
 
 use crate::error::Error;
 use crate::error::Result;
@@ -33,9 +32,11 @@ impl Timestamp {
   pub fn parse(input: &str) -> Result<Self> {
     let offset_date_time = OffsetDateTime::parse(input, &Rfc3339)
       .map_err(time::Error::from)
-      .map_err(Error::InvalidTimestamp)?
-      .to_offset(UtcOffset::UTC);
-    Ok(Timestamp(truncate_fractional_seconds(offset_date_time)))
+      .map_err(Error::InvalidTimestamp)?;
+    // Normalizing to UTC can leave the years 0000 - 9999 (e.g. `9999-12-31T23:59:59-01:00` or
+    // `0000-01-01T00:00:00+01:00`): `to_offset` panics in the first case and the second yields a value that
+    // cannot be formatted. Convert via the Unix timestamp instead, which `from_unix` range-checks.
+    Self::from_unix(offset_date_time.unix_timestamp())
   }
 
   /// Creates a new `Timestamp` with the current date and time, normalized to UTC+00:00 with
